@@ -77,6 +77,7 @@ Definition expected_skeleton : list (string * string * list string) := [
   ("_handle_sm", "_do_bind", []);
   ("_handle_sm", "_stream_negotiation_success", []);
   ("_handle_sm", "disconnect_mem_error", []);
+  ("_handle_sm", "xmpp_disconnect", []);
   ("_session_start", "disconnect_mem_error", []);
   ("_session_start", "handler_add_id", ["_handle_session"; "'_xmpp_session1'"]);
   ("_session_start", "handler_add_timed", ["_handle_missing_session"; "SESSION_TIMEOUT"]);
